@@ -301,4 +301,897 @@ theorem canonFeats_eq_of_mem_iff {lt : Str → Str → Bool} (h : StrictTotal lt
   strictSorted_ext h (canonFeats_strict h l) (canonFeats_strict h l') (fun a => by
     rw [mem_removeDuplicates, mem_removeDuplicates, mem_isort, mem_isort]; exact hm a)
 
+
+/-! ## 4. UTF-16 -/
+
+/-- UTF-16 code units of one scalar value -/
+def unit16 (c : Nat) : List Nat :=
+  if c < 0x10000 then [c]
+  else if c < 0x110000 then [0xD800 + (c - 0x10000) / 1024, 0xDC00 + (c - 0x10000) % 1024]
+  else [Utf8.replacement]
+
+theorem utf16_eq (s : Str) : utf16 s = s.flatMap (fun c => unit16 c.toNat) := by
+  simp [utf16, Utf8.utf16Units, cps, List.flatMap_map, unit16]
+
+theorem char_scalar (c : Char) : c.toNat < 0xD800 ∨ (0xDFFF < c.toNat ∧ c.toNat < 0x110000) := by
+  have := c.valid
+  simp only [Char.toNat, UInt32.isValidChar, Nat.isValidChar] at *
+  omega
+
+theorem unit16_cons_inj (c d : Char) (r s : List Nat)
+    (h : unit16 c.toNat ++ r = unit16 d.toNat ++ s) : c = d ∧ r = s := by
+  have hc := char_scalar c
+  have hd := char_scalar d
+  have key : c.toNat = d.toNat ∧ r = s := by
+    unfold unit16 at h
+    split at h <;> split at h
+    all_goals (try split at h)
+    all_goals (try split at h)
+    all_goals simp at h
+    all_goals (first | omega | (refine ⟨?_, ?_⟩ <;> first | omega | exact h.2 | exact h.2.2 | trace_state))
+  exact ⟨Char.ext (UInt32.toNat_inj.mp key.1), key.2⟩
+
+
+theorem utf16_injective : ∀ a b : Str, utf16 a = utf16 b → a = b := by
+  intro a b
+  rw [utf16_eq, utf16_eq]
+  induction a generalizing b with
+  | nil =>
+    cases b with
+    | nil => intro _; rfl
+    | cons d ds =>
+      intro h
+      simp only [flatMap_nil, flatMap_cons] at h
+      have : (unit16 d.toNat) ≠ [] := by unfold unit16; split <;> (try split) <;> simp
+      cases hu : unit16 d.toNat with
+      | nil => exact absurd hu this
+      | cons x xs => rw [hu] at h; simp at h
+  | cons c cs ih =>
+    cases b with
+    | nil =>
+      intro h
+      simp only [flatMap_nil, flatMap_cons] at h
+      have : (unit16 c.toNat) ≠ [] := by unfold unit16; split <;> (try split) <;> simp
+      cases hu : unit16 c.toNat with
+      | nil => exact absurd hu this
+      | cons x xs => rw [hu] at h; simp at h
+    | cons d ds =>
+      intro h
+      simp only [flatMap_cons] at h
+      have x1 := unit16_cons_inj c d _ _ h
+      rw [x1.1, ih ds x1.2]
+
+/-- `QString::operator<` is a strict total order on well-formed strings -/
+theorem lt16_strictTotal : StrictTotal lt16 :=
+  lexLt_strictTotal.comap utf16 utf16_injective
+
+/-- the four compared attributes of an identity, in comparison order -/
+def idKey (d : Identity) : List Str := [d.category, d.type, d.lang, d.name]
+
+theorem idKey_injective (a b : Identity) (h : idKey a = idKey b) : a = b := by
+  cases a; cases b; simp [idKey] at h; simp [h]
+
+theorem identityLessThan_eq_lexBy (lt : Str → Str → Bool) (a b : Identity) :
+    identityLessThan lt a b = lexBy lt (idKey a) (idKey b) := by
+  simp only [identityLessThan, idKey, lexBy]
+  repeat' split
+  all_goals simp_all
+
+/-- `identityLessThan` is a strict total order on identities whenever the string comparison is one -/
+theorem identityLessThan_strictTotal {lt : Str → Str → Bool} (h : StrictTotal lt) :
+    StrictTotal (identityLessThan lt) := by
+  have e : identityLessThan lt = fun a b => lexBy lt (idKey a) (idKey b) := by
+    funext a b; exact identityLessThan_eq_lexBy lt a b
+  rw [e]
+  exact (lexBy_strictTotal h).comap idKey idKey_injective
+
+
+section Weak
+variable {α : Type}
+/-- `insertBy`/`isort` keep a list sorted as soon as the comparison is irreflexive and transitive -/
+theorem insertBy_sorted' {lt : α → α → Bool} (hi : ∀ a, lt a a = false)
+    (ht : ∀ a b c, lt a b = true → lt b c = true → lt a c = true) (x : α) :
+    ∀ l, Sorted lt l → Sorted lt (insertBy lt x l)
+  | [], _ => by simp [insertBy, Sorted]
+  | y :: ys, hs => by
+    simp only [Sorted, pairwise_cons] at hs
+    simp only [insertBy]
+    split
+    · rename_i hxy
+      simp only [Sorted, pairwise_cons, mem_cons]
+      refine ⟨?_, hs⟩
+      intro z hz
+      rcases hz with rfl | hz
+      · cases hzx : lt z x with
+        | false => rfl
+        | true => have x1 := ht x z x hxy hzx; rw [hi] at x1; exact absurd x1 (by simp)
+      · cases hzx : lt z x with
+        | false => rfl
+        | true => have x1 := ht z x y hzx hxy; rw [hs.1 z hz] at x1; exact absurd x1 (by simp)
+    · rename_i hxy
+      simp only [Sorted, pairwise_cons]
+      refine ⟨?_, insertBy_sorted' hi ht x ys hs.2⟩
+      intro z hz
+      rcases (mem_cons.mp ((insertBy_perm lt x ys).mem_iff.mp hz)) with rfl | hz
+      · simpa using hxy
+      · exact hs.1 z hz
+
+theorem isort_sorted' {lt : α → α → Bool} (hi : ∀ a, lt a a = false)
+    (ht : ∀ a b c, lt a b = true → lt b c = true → lt a c = true) : ∀ l, Sorted lt (isort lt l)
+  | [] => by simp [isort, Sorted]
+  | x :: xs => insertBy_sorted' hi ht x _ (isort_sorted' hi ht xs)
+
+/-- a permutation of a list whose members are all equal is the list itself -/
+theorem perm_eq_of_all_eq {l₁ l₂ : List α} (p : l₁ ~ l₂) (h : ∀ a ∈ l₁, ∀ b ∈ l₁, a = b) : l₁ = l₂ :=
+  Perm.eq_of_pairwise (le := fun _ _ => True)
+    (fun a b ha hb _ _ => h a ha b (p.mem_iff.mpr hb))
+    (Pairwise.imp (fun _ => trivial) (pairwise_of_forall (R := fun _ _ => True) (fun _ _ => trivial)))
+    (pairwise_of_forall (fun _ _ => trivial)) p
+end Weak
+
+/-! ## 5. the QMap -/
+
+def keyLt (a b : Field) : Bool := lt16 a.key b.key
+
+theorem keyLt_irrefl (a : Field) : keyLt a a = false := lt16_strictTotal.irrefl _
+theorem keyLt_trans (a b c : Field) : keyLt a b = true → keyLt b c = true → keyLt a c = true :=
+  lt16_strictTotal.trans _ _ _
+theorem keyLt_asymm (a b : Field) : keyLt a b = true → keyLt b a = false := lt16_strictTotal.asymm _ _
+
+theorem mem_mapInsert {w f : Field} : ∀ {m : List Field}, w ∈ mapInsert m f → w = f ∨ w ∈ m
+  | [], h => by simp [mapInsert] at h; exact Or.inl h
+  | g :: r, h => by
+    simp only [mapInsert] at h
+    split at h
+    · simpa using h
+    · split at h
+      · rcases mem_cons.mp h with rfl | h
+        · exact Or.inr mem_cons_self
+        · rcases mem_mapInsert h with e | e
+          · exact Or.inl e
+          · exact Or.inr (mem_cons_of_mem _ e)
+      · rcases mem_cons.mp h with rfl | h
+        · exact Or.inl rfl
+        · exact Or.inr (mem_cons_of_mem _ h)
+
+/-- the map stays strictly ascending by key -/
+theorem mapInsert_sorted (f : Field) : ∀ m : List Field, m.Pairwise (fun a b => keyLt a b = true) →
+    (mapInsert m f).Pairwise (fun a b => keyLt a b = true)
+  | [], _ => by simp [mapInsert]
+  | g :: r, hs => by
+    have hs' := pairwise_cons.mp hs
+    simp only [mapInsert]
+    split
+    · rename_i hfg
+      refine pairwise_cons.mpr ⟨?_, hs⟩
+      intro z hz
+      rcases mem_cons.mp hz with rfl | hz
+      · exact hfg
+      · exact keyLt_trans f g z hfg (hs'.1 z hz)
+    · rename_i hfg
+      split
+      · rename_i hgf
+        refine pairwise_cons.mpr ⟨?_, mapInsert_sorted f r hs'.2⟩
+        intro z hz
+        rcases mem_mapInsert hz with rfl | hz
+        · exact hgf
+        · exact hs'.1 z hz
+      · rename_i hgf
+        have e : f.key = g.key :=
+          lt16_strictTotal.total _ _ (by simpa using hfg) (by simpa using hgf)
+        refine pairwise_cons.mpr ⟨?_, hs'.2⟩
+        intro z hz
+        have := hs'.1 z hz
+        simpa [keyLt, e] using this
+
+theorem foldl_mapInsert_sorted : ∀ (fs acc : List Field), acc.Pairwise (fun a b => keyLt a b = true) →
+    (fs.foldl mapInsert acc).Pairwise (fun a b => keyLt a b = true)
+  | [], _, h => h
+  | f :: fs, acc, h => foldl_mapInsert_sorted fs _ (mapInsert_sorted f acc h)
+
+theorem buildMap_sorted (fs : List Field) : (buildMap fs).Pairwise (fun a b => keyLt a b = true) :=
+  foldl_mapInsert_sorted fs [] Pairwise.nil
+
+/-- inserting a fresh key adds the field -/
+theorem mapInsert_perm (f : Field) : ∀ m : List Field, (∀ g ∈ m, g.key ≠ f.key) → mapInsert m f ~ f :: m
+  | [], _ => by simp [mapInsert]
+  | g :: r, hk => by
+    simp only [mapInsert]
+    split
+    · exact Perm.refl _
+    · rename_i hfg
+      split
+      · exact ((mapInsert_perm f r (fun x hx => hk x (mem_cons_of_mem _ hx))).cons g).trans (Perm.swap f g r)
+      · rename_i hgf
+        have e : f.key = g.key :=
+          lt16_strictTotal.total _ _ (by simpa using hfg) (by simpa using hgf)
+        exact absurd e.symm (hk g mem_cons_self)
+
+theorem foldl_mapInsert_perm : ∀ (fs acc : List Field), ((acc ++ fs).map Field.key).Nodup →
+    fs.foldl mapInsert acc ~ acc ++ fs
+  | [], acc, _ => by simp
+  | f :: fs, acc, hn => by
+    have hfresh : ∀ g ∈ acc, g.key ≠ f.key := by
+      intro g hg e
+      rw [map_append, map_cons] at hn
+      have hn' := (nodup_append.mp hn).2.2 g.key (mem_map_of_mem hg) f.key mem_cons_self
+      exact hn' e
+    have p1 : mapInsert acc f ~ f :: acc := mapInsert_perm f acc hfresh
+    have p2 : mapInsert acc f ++ fs ~ acc ++ f :: fs :=
+      (p1.append_right fs).trans (perm_middle (a := f) (l₁ := acc) (l₂ := fs)).symm
+    have hn2 : ((mapInsert acc f ++ fs).map Field.key).Nodup := (p2.map Field.key).nodup_iff.mpr hn
+    exact (foldl_mapInsert_perm fs _ hn2).trans p2
+
+/-- with distinct keys the map holds exactly the fields -/
+theorem buildMap_perm (fs : List Field) (hn : (fs.map Field.key).Nodup) : buildMap fs ~ fs := by
+  have := foldl_mapInsert_perm fs [] (by simpa using hn)
+  simpa [buildMap] using this
+
+theorem eq_of_key_eq {fs : List Field} (hn : (fs.map Field.key).Nodup) {a b : Field}
+    (ha : a ∈ fs) (hb : b ∈ fs) (e : a.key = b.key) : a = b := by
+  induction fs with
+  | nil => cases ha
+  | cons f fs ih =>
+    simp only [map_cons, nodup_cons, mem_map, not_exists, not_and] at hn
+    rcases mem_cons.mp ha with ea | ha1
+    · rcases mem_cons.mp hb with eb | hb1
+      · rw [ea, eb]
+      · exact absurd (ea ▸ e).symm (hn.1 b hb1)
+    · rcases mem_cons.mp hb with eb | hb1
+      · exact absurd (eb ▸ e) (hn.1 a ha1)
+      · exact ih hn.2 ha1 hb1
+
+/-- the content of the map does not depend on the order in which distinct keys were inserted -/
+theorem buildMap_eq_of_perm {fa fb : List Field} (hn : (fa.map Field.key).Nodup) (p : fa ~ fb) :
+    buildMap fa = buildMap fb := by
+  have hnb : (fb.map Field.key).Nodup := (p.map Field.key).nodup_iff.mp hn
+  have pp : buildMap fa ~ buildMap fb := (buildMap_perm fa hn).trans (p.trans (buildMap_perm fb hnb).symm)
+  exact Perm.eq_of_pairwise (le := fun a b => keyLt a b = true)
+    (fun a b _ _ hab hba => by rw [keyLt_asymm a b hab] at hba; exact absurd hba (by simp))
+    (buildMap_sorted fa) (buildMap_sorted fb) pp
+
+/-- … and any filtered part of it is the filtered field list sorted by key -/
+theorem buildMap_filter (fs : List Field) (hn : (fs.map Field.key).Nodup) (q : Field → Bool) :
+    (buildMap fs).filter q = isort keyLt (fs.filter q) := by
+  have s1 : Sorted keyLt ((buildMap fs).filter q) :=
+    Pairwise.filter q ((buildMap_sorted fs).imp (fun {a b} h => keyLt_asymm a b h))
+  have s2 : Sorted keyLt (isort keyLt (fs.filter q)) := isort_sorted' keyLt_irrefl keyLt_trans _
+  have pp : (buildMap fs).filter q ~ isort keyLt (fs.filter q) :=
+    ((buildMap_perm fs hn).filter q).trans (isort_perm keyLt _).symm
+  refine Perm.eq_of_pairwise (le := fun a b => keyLt b a = false) ?_ s1 s2 pp
+  intro a b ha hb hab hba
+  have ha' : a ∈ fs := (buildMap_perm fs hn).mem_iff.mp (mem_filter.mp ha).1
+  have hb' : b ∈ fs := (mem_filter.mp ((mem_isort keyLt _ b).mp hb)).1
+  exact eq_of_key_eq hn ha' hb' (lt16_strictTotal.total _ _ hba hab)
+
+theorem buildMap_find (fs : List Field) (hn : (fs.map Field.key).Nodup) (k : Str) :
+    (buildMap fs).find? (fun f => f.key = k) = fs.find? (fun f => f.key = k) := by
+  rw [← head?_filter, ← head?_filter]
+  congr 1
+  refine perm_eq_of_all_eq ((buildMap_perm fs hn).filter _) ?_
+  intro a ha b hb
+  have ha' := mem_filter.mp ha
+  have hb' := mem_filter.mp hb
+  refine eq_of_key_eq hn ((buildMap_perm fs hn).mem_iff.mp ha'.1) ((buildMap_perm fs hn).mem_iff.mp hb'.1) ?_
+  have e1 : a.key = k := by simpa using ha'.2
+  have e2 : b.key = k := by simpa using hb'.2
+  rw [e1, e2]
+
+
+/-! ## 6. reordering of the form; S as a token list -/
+
+theorem flatMap_congr' {α β : Type} {l : List α} {f g : α → List β} (h : ∀ a ∈ l, f a = g a) :
+    l.flatMap f = l.flatMap g := by
+  rw [flatMap_def, flatMap_def, map_congr_left h]
+
+/-- element-wise relation between two lists of the same length -/
+inductive Pointwise {α β : Type} (R : α → β → Prop) : List α → List β → Prop
+  | nil : Pointwise R [] []
+  | cons {a b as bs} : R a b → Pointwise R as bs → Pointwise R (a :: as) (b :: bs)
+
+/-- same variant, list entries reordered -/
+def Value.Permuted : Value → Value → Prop
+  | .text s, .text s' => s = s'
+  | .list l, .list l' => l ~ l'
+  | .bool b, .bool b' => b = b'
+  | _, _ => False
+
+/-- same key, values reordered -/
+def Field.Permuted (f g : Field) : Prop := f.key = g.key ∧ f.value.Permuted g.value
+
+/-- `b`'s form is `a`'s form with the fields reordered and the values inside every field reordered -/
+def FormPermuted : Option (List Field) → Option (List Field) → Prop
+  | none, none => True
+  | some fa, some fb => ∃ fm, fa ~ fm ∧ Pointwise Field.Permuted fm fb
+  | _, _ => False
+
+/-- `var`s are unique within the form (XEP-0004 §3.2) -/
+def DistinctKeys : Option (List Field) → Prop
+  | none => True
+  | some fs => (fs.map Field.key).Nodup
+
+def normValue : Value → Value
+  | .list l => .list (isort lt16 l)
+  | v => v
+
+def normField (f : Field) : Field := { key := f.key, value := normValue f.value }
+
+theorem normValue_eq_of_permuted {v w : Value} (h : v.Permuted w) : normValue v = normValue w := by
+  cases v <;> cases w <;> simp only [Value.Permuted] at h
+  · rw [h]
+  · simp only [normValue]; rw [isort_eq_of_perm lt16_strictTotal h]
+  · rw [h]
+
+theorem normField_eq_of_permuted {f g : Field} (h : f.Permuted g) : normField f = normField g := by
+  simp only [normField, h.1, normValue_eq_of_permuted h.2]
+
+theorem map_normField_eq {fm fb : List Field} (h : Pointwise Field.Permuted fm fb) :
+    fm.map normField = fb.map normField := by
+  induction h with
+  | nil => rfl
+  | cons h _ ih => simp only [map_cons, normField_eq_of_permuted h, ih]
+
+theorem isort_singleton_iff (lt : Str → Str → Bool) (l : List Str) (v : Str) :
+    isort lt l = [v] ↔ l = [v] := by
+  constructor
+  · intro h
+    have hl := isort_length lt l
+    rw [h] at hl
+    match l, hl with
+    | [w], _ => simpa [isort, insertBy] using h
+  · intro h; subst h; rfl
+
+theorem toStr_normValue (v : Value) : (normValue v).toStr = v.toStr := by
+  cases v with
+  | text s => rfl
+  | bool b => rfl
+  | list l =>
+    simp only [normValue]
+    match l with
+    | [] => rfl
+    | [w] => rfl
+    | a :: b :: r =>
+      have hl := isort_length lt16 (a :: b :: r)
+      match hs : isort lt16 (a :: b :: r), hl with
+      | x :: y :: z, _ => rfl
+
+theorem codeVals_normValue (v : Value) : (normValue v).codeVals = v.codeVals := by
+  cases v with
+  | text s => rfl
+  | bool b => rfl
+  | list l =>
+    simp only [normValue, Value.codeVals]
+    exact isort_of_sorted lt16_strictTotal (isort_sorted lt16_strictTotal l)
+
+theorem fieldStrCode_normField (f : Field) : fieldStrCode (normField f) = fieldStrCode f := by
+  simp [fieldStrCode, normField, codeVals_normValue]
+
+theorem mapInsert_map_normField (f : Field) : ∀ m : List Field,
+    mapInsert (m.map normField) (normField f) = (mapInsert m f).map normField
+  | [] => rfl
+  | g :: r => by
+    simp only [map_cons, mapInsert]
+    have k1 : (normField f).key = f.key := rfl
+    have k2 : (normField g).key = g.key := rfl
+    rw [k1, k2]
+    split
+    · rfl
+    · split
+      · simp only [map_cons, mapInsert_map_normField f r]
+      · rfl
+
+theorem foldl_mapInsert_map_normField : ∀ (fs acc : List Field),
+    (fs.map normField).foldl mapInsert (acc.map normField) = (fs.foldl mapInsert acc).map normField
+  | [], _ => rfl
+  | f :: fs, acc => by
+    simp only [map_cons, foldl_cons, mapInsert_map_normField]
+    exact foldl_mapInsert_map_normField fs _
+
+theorem buildMap_map_normField (fs : List Field) :
+    buildMap (fs.map normField) = (buildMap fs).map normField :=
+  foldl_mapInsert_map_normField fs []
+
+/-- sorting the values inside the fields beforehand changes nothing -/
+theorem formStrCode_normField (fs : List Field) :
+    formStrCode (some (fs.map normField)) = formStrCode (some fs) := by
+  simp only [formStrCode, buildMap_map_normField, find?_map, filter_map, flatMap_map]
+  have e1 : ((fun f : Field => decide (f.key = formTypeKey)) ∘ normField) = fun f => decide (f.key = formTypeKey) := by
+    funext f; rfl
+  have e2 : ((fun f : Field => decide (f.key ≠ formTypeKey)) ∘ normField) = fun f => decide (f.key ≠ formTypeKey) := by
+    funext f; rfl
+  rw [e1, e2]
+  cases (buildMap fs).find? (fun f => decide (f.key = formTypeKey)) with
+  | none => rfl
+  | some ft =>
+    simp only [Option.map_some, normField, toStr_normValue]
+    congr 2
+    apply flatMap_congr'
+    intro f _
+    exact fieldStrCode_normField f
+
+theorem formStrCode_eq_of_permuted {fa fb : Option (List Field)} (hk : DistinctKeys fa)
+    (h : FormPermuted fa fb) : formStrCode fa = formStrCode fb := by
+  match fa, fb, h with
+  | none, none, _ => rfl
+  | some fa, some fb, ⟨fm, p, hf⟩ =>
+    have e1 : formStrCode (some fa) = formStrCode (some fm) := by
+      simp only [formStrCode, buildMap_eq_of_perm hk p]
+    rw [e1, ← formStrCode_normField fm, map_normField_eq hf, formStrCode_normField]
+
+/-! ### tokens -/
+
+/-- a token followed by the separator -/
+def sep (t : Str) : Str := t ++ ['<']
+
+def idToken (d : Identity) : Str := d.category ++ '/' :: (d.type ++ '/' :: (d.lang ++ '/' :: d.name))
+
+theorem identityStr_eq (d : Identity) : identityStr d = sep (idToken d) := by
+  simp [identityStr, sep, idToken]
+
+/-- what the C++ appends after the key: the joined values are the values themselves, except that
+no value at all still yields one (empty) token -/
+def valTokens (v : Value) : List Str :=
+  match v.codeVals with
+  | [] => [[]]
+  | l => l
+
+theorem join_sep : ∀ l : List Str, l ≠ [] → join '<' l ++ ['<'] = l.flatMap sep
+  | [], h => absurd rfl h
+  | [a], _ => by simp [join, sep]
+  | a :: b :: r, _ => by
+    have ih := join_sep (b :: r) (by simp)
+    simp only [join, flatMap_cons, sep] at ih ⊢
+    rw [← ih]; simp
+
+def fieldTokens (f : Field) : List Str := f.key :: valTokens f.value
+
+theorem fieldStrCode_eq (f : Field) : fieldStrCode f = (fieldTokens f).flatMap sep := by
+  simp only [fieldStrCode, fieldTokens, valTokens, flatMap_cons]
+  cases h : f.value.codeVals with
+  | nil => simp [join, sep]
+  | cons a r => rw [← join_sep (a :: r) (by simp)]; simp [sep]
+
+/-- FORM_TYPE field and the remaining fields in key order, as the C++ picks them -/
+def formParts (form : Option (List Field)) : Option (Field × List Field) :=
+  match form with
+  | none => none
+  | some fields =>
+    match (buildMap fields).find? (fun f => f.key = formTypeKey) with
+    | none => none
+    | some ft => some (ft, (buildMap fields).filter (fun f => f.key ≠ formTypeKey))
+
+def formTokens (form : Option (List Field)) : List Str :=
+  match formParts form with
+  | none => []
+  | some p => p.1.value.toStr :: p.2.flatMap fieldTokens
+
+theorem formStrCode_eq (form : Option (List Field)) : formStrCode form = (formTokens form).flatMap sep := by
+  cases form with
+  | none => rfl
+  | some fields =>
+    simp only [formStrCode, formTokens, formParts]
+    cases (buildMap fields).find? (fun f => decide (f.key = formTypeKey)) with
+    | none => rfl
+    | some ft =>
+      simp only [flatMap_cons, sep, flatMap_assoc]
+      simp only [append_assoc, singleton_append, cons.injEq, append_cancel_left_eq, true_and]
+      apply flatMap_congr'
+      intro f _
+      exact fieldStrCode_eq f
+
+/-- the token list whose separator-terminated concatenation is S -/
+def tokens (i : Info) : List Str :=
+  (sortedIdentitiesCode i).map idToken ++ (sortedFeaturesCode i ++ formTokens i.form)
+
+theorem verStringCode_eq_tokens (i : Info) : verStringCode i = (tokens i).flatMap sep := by
+  simp only [verStringCode, tokens, flatMap_append, flatMap_map, formStrCode_eq, append_assoc]
+  congr 1
+  apply flatMap_congr'
+  intro d _
+  exact identityStr_eq d
+
+/-- splitting at the first separator: a string without `c` followed by `c` determines both parts -/
+theorem split_at_sep (c : Char) : ∀ (a b r s : Str), c ∉ a → c ∉ b → a ++ c :: r = b ++ c :: s → a = b ∧ r = s
+  | [], [], _, _, _, _, h => by simpa using h
+  | [], y :: b, _, _, _, hb, h => by
+    simp only [nil_append, cons_append, cons.injEq] at h
+    exact absurd (h.1 ▸ mem_cons_self) hb
+  | x :: a, [], _, _, ha, _, h => by
+    simp only [nil_append, cons_append, cons.injEq] at h
+    exact absurd (h.1 ▸ mem_cons_self) ha
+  | x :: a, y :: b, r, s, ha, hb, h => by
+    simp only [cons_append, cons.injEq] at h
+    have ih := split_at_sep c a b r s (fun m => ha (mem_cons_of_mem _ m)) (fun m => hb (mem_cons_of_mem _ m)) h.2
+    exact ⟨by rw [h.1, ih.1], ih.2⟩
+
+/-- separator-terminated concatenation is injective on token lists without the separator -/
+theorem flatMap_sep_inj : ∀ (l₁ l₂ : List Str), (∀ t ∈ l₁, '<' ∉ t) → (∀ t ∈ l₂, '<' ∉ t) →
+    l₁.flatMap sep = l₂.flatMap sep → l₁ = l₂
+  | [], [], _, _, _ => rfl
+  | [], b :: l₂, _, _, h => by simp [sep] at h
+  | a :: l₁, [], _, _, h => by simp [sep] at h
+  | a :: l₁, b :: l₂, h₁, h₂, h => by
+    simp only [flatMap_cons, sep, append_assoc, singleton_append] at h
+    have x1 := split_at_sep '<' a b _ _ (h₁ a mem_cons_self) (h₂ b mem_cons_self) h
+    rw [x1.1, flatMap_sep_inj l₁ l₂ (fun t ht => h₁ t (mem_cons_of_mem _ ht))
+      (fun t ht => h₂ t (mem_cons_of_mem _ ht)) (by simpa [sep] using x1.2)]
+
+
+/-! ### components, canonical content, injectivity -/
+
+/-- the strings inside a field value -/
+def Value.strings : Value → List Str
+  | .text s => [s]
+  | .list l => l
+  | .bool _ => []
+
+/-- every string component of an info set: category/type/lang/name of the identities, the features,
+the keys and values of the form -/
+def Info.components (i : Info) : List Str :=
+  i.ids.flatMap idKey ++ (i.feats ++
+    (match i.form with
+     | none => []
+     | some fs => fs.flatMap (fun f => f.key :: f.value.strings)))
+
+/-- character `c` occurs in no component -/
+def NoChar (c : Char) (i : Info) : Prop := ∀ s ∈ i.components, c ∉ s
+
+/-- `/` occurs in no category, type or language tag (the name may contain it) -/
+def NoSlash (i : Info) : Prop := ∀ d ∈ i.ids, '/' ∉ d.category ∧ '/' ∉ d.type ∧ '/' ∉ d.lang
+
+theorem mem_foldl_mapInsert {w : Field} : ∀ {fs acc : List Field}, w ∈ fs.foldl mapInsert acc → w ∈ acc ∨ w ∈ fs
+  | [], _, h => Or.inl h
+  | f :: fs, acc, h => by
+    rcases mem_foldl_mapInsert (fs := fs) h with h | h
+    · rcases mem_mapInsert h with rfl | h
+      · exact Or.inr mem_cons_self
+      · exact Or.inl h
+    · exact Or.inr (mem_cons_of_mem _ h)
+
+theorem mem_buildMap {w : Field} {fs : List Field} (h : w ∈ buildMap fs) : w ∈ fs := by
+  rcases mem_foldl_mapInsert h with h | h
+  · cases h
+  · exact h
+
+theorem formParts_mem {fs : List Field} {p : Field × List Field} (h : formParts (some fs) = some p) :
+    p.1 ∈ fs ∧ ∀ f ∈ p.2, f ∈ fs := by
+  simp only [formParts] at h
+  cases hf : (buildMap fs).find? (fun f => decide (f.key = formTypeKey)) with
+  | none => simp [hf] at h
+  | some ft =>
+    simp only [hf, Option.some.injEq] at h
+    subst h
+    exact ⟨mem_buildMap (mem_of_find?_eq_some hf), fun f hm => mem_buildMap (mem_filter.mp hm).1⟩
+
+theorem toStr_noChar (c : Char) (hc : c ∉ "true".toList ∧ c ∉ "false".toList) (v : Value)
+    (h : ∀ s ∈ v.strings, c ∉ s) : c ∉ v.toStr := by
+  cases v with
+  | text s => exact h s (by simp [Value.strings])
+  | bool b =>
+    cases b
+    · exact hc.2
+    · exact hc.1
+  | list l =>
+    match l with
+    | [] => simp [Value.toStr]
+    | [w] => exact h w (by simp [Value.strings])
+    | _ :: _ :: _ => simp [Value.toStr]
+
+theorem valTokens_noChar (c : Char) (hc : c ∉ "true".toList ∧ c ∉ "false".toList) (v : Value)
+    (h : ∀ s ∈ v.strings, c ∉ s) : ∀ t ∈ valTokens v, c ∉ t := by
+  intro t ht
+  simp only [valTokens] at ht
+  have hm : ∀ u ∈ v.codeVals, c ∉ u := by
+    intro u hu
+    cases v with
+    | text s => simp only [Value.codeVals, mem_singleton] at hu; subst hu; exact h _ (by simp [Value.strings])
+    | bool b =>
+      simp only [Value.codeVals, mem_singleton] at hu; subst hu
+      exact toStr_noChar c hc _ (by simp [Value.strings])
+    | list l =>
+      simp only [Value.codeVals, mem_isort] at hu
+      exact h u hu
+  cases hv : v.codeVals with
+  | nil => simp only [hv, mem_singleton] at ht; subst ht; simp
+  | cons a r => rw [hv] at ht hm; exact hm t ht
+
+theorem lt_notin_bool : '<' ∉ "true".toList ∧ '<' ∉ "false".toList := by decide
+
+/-- no `<` in the components ⇒ no `<` in any token of S -/
+theorem tokens_noLt (i : Info) (h : NoChar '<' i) : ∀ t ∈ tokens i, '<' ∉ t := by
+  intro t ht
+  simp only [tokens, mem_append, mem_map] at ht
+  rcases ht with ⟨d, hd, rfl⟩ | ht | ht
+  · have hd' : d ∈ i.ids := (mem_isort _ _ _).mp hd
+    have hk : ∀ s ∈ idKey d, '<' ∉ s := fun s hs =>
+      h s (by simp only [Info.components, mem_append, mem_flatMap]; exact Or.inl ⟨d, hd', hs⟩)
+    simp only [idKey, mem_cons, not_mem_nil, or_false, forall_eq_or_imp, forall_eq] at hk
+    simp only [idToken, mem_append, mem_cons, not_or]
+    refine ⟨hk.1, by decide, hk.2.1, by decide, hk.2.2.1, by decide, hk.2.2.2⟩
+  · have : t ∈ i.feats := by
+      simpa [sortedFeaturesCode, mem_removeDuplicates, mem_isort] using ht
+    exact h t (by simp only [Info.components, mem_append]; exact Or.inr (Or.inl this))
+  · simp only [formTokens] at ht
+    cases hp : formParts i.form with
+    | none => simp [hp] at ht
+    | some p =>
+      cases hform : i.form with
+      | none => simp [hform, formParts] at hp
+      | some fs =>
+        rw [hform] at hp
+        have hmem := formParts_mem hp
+        have hfield : ∀ f ∈ fs, '<' ∉ f.key ∧ ∀ s ∈ f.value.strings, '<' ∉ s := by
+          intro f hf
+          have hc : ∀ s ∈ f.key :: f.value.strings, '<' ∉ s := fun s hs =>
+            h s (by
+              simp only [Info.components, hform, mem_append, mem_flatMap]
+              exact Or.inr (Or.inr ⟨f, hf, hs⟩))
+          exact ⟨hc _ mem_cons_self, fun s hs => hc s (mem_cons_of_mem _ hs)⟩
+        rw [hform, hp] at ht
+        simp only [mem_cons, mem_flatMap, fieldTokens] at ht
+        rcases ht with rfl | ⟨f, hf, rfl | ht⟩
+        · exact toStr_noChar '<' lt_notin_bool _ (hfield _ hmem.1).2
+        · exact (hfield f (hmem.2 f hf)).1
+        · exact valTokens_noChar '<' lt_notin_bool _ (hfield f (hmem.2 f hf)).2 t ht
+
+/-- under "no `<` in any component", S determines its token list -/
+theorem tokens_eq_of_verString_eq {a b : Info} (ha : NoChar '<' a) (hb : NoChar '<' b)
+    (h : verStringCode a = verStringCode b) : tokens a = tokens b := by
+  rw [verStringCode_eq_tokens, verStringCode_eq_tokens] at h
+  exact flatMap_sep_inj _ _ (tokens_noLt a ha) (tokens_noLt b hb) h
+
+/-- the identity token determines the identity when `/` is confined to the name -/
+theorem idToken_inj {d e : Identity}
+    (hd : '/' ∉ d.category ∧ '/' ∉ d.type ∧ '/' ∉ d.lang) (he : '/' ∉ e.category ∧ '/' ∉ e.type ∧ '/' ∉ e.lang)
+    (h : idToken d = idToken e) : d = e := by
+  simp only [idToken] at h
+  have x1 := split_at_sep '/' _ _ _ _ hd.1 he.1 h
+  have x2 := split_at_sep '/' _ _ _ _ hd.2.1 he.2.1 x1.2
+  have x3 := split_at_sep '/' _ _ _ _ hd.2.2 he.2.2 x2.2
+  cases d; cases e
+  simp only at x1 x2 x3
+  simp [x1.1, x2.1, x3.1, x3.2]
+
+theorem map_idToken_inj : ∀ {l₁ l₂ : List Identity},
+    (∀ d ∈ l₁, '/' ∉ d.category ∧ '/' ∉ d.type ∧ '/' ∉ d.lang) →
+    (∀ d ∈ l₂, '/' ∉ d.category ∧ '/' ∉ d.type ∧ '/' ∉ d.lang) →
+    l₁.map idToken = l₂.map idToken → l₁ = l₂
+  | [], [], _, _, _ => rfl
+  | [], _ :: _, _, _, h => by simp at h
+  | _ :: _, [], _, _, h => by simp at h
+  | d :: l₁, e :: l₂, h₁, h₂, h => by
+    simp only [map_cons, cons.injEq] at h
+    rw [idToken_inj (h₁ d mem_cons_self) (h₂ e mem_cons_self) h.1,
+      map_idToken_inj (fun x hx => h₁ x (mem_cons_of_mem _ hx)) (fun x hx => h₂ x (mem_cons_of_mem _ hx)) h.2]
+
+theorem sortedIds_noSlash {i : Info} (h : NoSlash i) :
+    ∀ d ∈ sortedIdentitiesCode i, '/' ∉ d.category ∧ '/' ∉ d.type ∧ '/' ∉ d.lang :=
+  fun d hd => h d ((mem_isort _ _ _).mp hd)
+
+/-- the canonical content of an info set as the hash sees it -/
+structure Canon where
+  /-- identities in hashing order -/
+  ids : List Identity
+  /-- features in hashing order, each once -/
+  feats : List Str
+  /-- FORM_TYPE value and, in key order, every other key with the values appended for it;
+  `none` when there is no form or it has no FORM_TYPE (ignored) -/
+  form : Option (Str × List (Str × List Str))
+  deriving DecidableEq, Repr
+
+def canonForm (form : Option (List Field)) : Option (Str × List (Str × List Str)) :=
+  (formParts form).map fun p => (p.1.value.toStr, p.2.map fun f => (f.key, valTokens f.value))
+
+def canon (i : Info) : Canon :=
+  { ids := sortedIdentitiesCode i, feats := sortedFeaturesCode i, form := canonForm i.form }
+
+/-- number of identities, of distinct features, and per form key the number of appended values -/
+def Canon.shape (c : Canon) : Nat × Nat × Option (List Nat) :=
+  (c.ids.length, c.feats.length, c.form.map fun p => p.2.map fun kv => kv.2.length)
+
+def canonFormTokens : Option (Str × List (Str × List Str)) → List Str
+  | none => []
+  | some p => p.1 :: p.2.flatMap (fun kv => kv.1 :: kv.2)
+
+theorem formTokens_eq_canon (form : Option (List Field)) : formTokens form = canonFormTokens (canonForm form) := by
+  simp only [formTokens, canonForm]
+  cases formParts form with
+  | none => rfl
+  | some p =>
+    simp only [Option.map_some, canonFormTokens, flatMap_map]
+    rfl
+
+theorem flatten_inj_of_lengths {α : Type} : ∀ {L₁ L₂ : List (List α)},
+    L₁.map length = L₂.map length → L₁.flatten = L₂.flatten → L₁ = L₂
+  | [], [], _, _ => rfl
+  | [], _ :: _, h, _ => by simp at h
+  | _ :: _, [], h, _ => by simp at h
+  | a :: L₁, b :: L₂, hl, hf => by
+    simp only [map_cons, cons.injEq] at hl
+    simp only [flatten_cons] at hf
+    have x1 := append_inj hf hl.1
+    rw [x1.1, flatten_inj_of_lengths hl.2 x1.2]
+
+theorem canonForm_eq_of_tokens {x y : Option (Str × List (Str × List Str))}
+    (hs : (x.map fun p => p.2.map fun kv => kv.2.length) = (y.map fun p => p.2.map fun kv => kv.2.length))
+    (ht : canonFormTokens x = canonFormTokens y) : x = y := by
+  match x, y with
+  | none, none => rfl
+  | none, some _ => simp at hs
+  | some _, none => simp at hs
+  | some (t, kvs), some (t', kvs') =>
+    simp only [Option.map_some, Option.some.injEq] at hs
+    simp only [canonFormTokens, cons.injEq] at ht
+    have e : kvs.map (fun kv => kv.1 :: kv.2) = kvs'.map (fun kv => kv.1 :: kv.2) := by
+      apply flatten_inj_of_lengths
+      · simp only [map_map]
+        have := congrArg (map (· + 1)) hs
+        simpa [Function.comp_def] using this
+      · simpa [flatMap_def] using ht.2
+    have e2 : kvs = kvs' := by
+      clear hs ht
+      induction kvs generalizing kvs' with
+      | nil => cases kvs' with
+        | nil => rfl
+        | cons _ _ => simp at e
+      | cons kv r ih =>
+        cases kvs' with
+        | nil => simp at e
+        | cons kv' r' =>
+          simp only [map_cons, cons.injEq] at e
+          rw [ih (kvs' := r') e.2]
+          cases kv; cases kv'
+          simp only at e
+          simp [e.1.1, e.1.2]
+    rw [ht.1, e2]
+
+theorem tokens_eq_canon (i : Info) :
+    tokens i = (canon i).ids.map idToken ++ ((canon i).feats ++ canonFormTokens (canon i).form) := by
+  simp [tokens, canon, formTokens_eq_canon]
+
+/-- the token list determines the canonical content once the shape is known -/
+theorem canon_eq_of_tokens_eq {a b : Info} (hsa : NoSlash a) (hsb : NoSlash b)
+    (hshape : (canon a).shape = (canon b).shape) (h : tokens a = tokens b) : canon a = canon b := by
+  rw [tokens_eq_canon, tokens_eq_canon] at h
+  simp only [Canon.shape, Prod.mk.injEq] at hshape
+  have x1 := append_inj h (by simp [hshape.1])
+  have x2 := append_inj x1.2 hshape.2.1
+  have e1 : (canon a).ids = (canon b).ids :=
+    map_idToken_inj (sortedIds_noSlash hsa) (sortedIds_noSlash hsb) x1.1
+  have e3 : (canon a).form = (canon b).form := canonForm_eq_of_tokens hshape.2.2 x2.2
+  cases ha : canon a; cases hb : canon b
+  rw [ha, hb] at e1 e3 x2
+  simp only at e1 e3 x2
+  simp [e1, x2.1, e3]
+
+
+/-! ## 7. octet order = code point order; UTF-16 order = code point order on the BMP -/
+
+theorem lexLt_irrefl (a : List Nat) : lexLt a a = false := lexLt_strictTotal.irrefl a
+
+theorem lexLt_append_left : ∀ (p a b : List Nat), lexLt (p ++ a) (p ++ b) = lexLt a b
+  | [], _, _ => rfl
+  | x :: p, a, b => by
+    simp only [cons_append, lexLt, Nat.lt_irrefl, if_false]
+    exact lexLt_append_left p a b
+
+/-- UTF-8 octets of one scalar value, as numbers -/
+def encN (c : Nat) : List Nat :=
+  if c < 0x80 then [c]
+  else if c < 0x800 then [0xC0 + c / 64, 0x80 + c % 64]
+  else if c < 0x10000 then [0xE0 + c / 4096, 0x80 + c / 64 % 64, 0x80 + c % 64]
+  else [0xF0 + c / 262144, 0x80 + c / 4096 % 64, 0x80 + c / 64 % 64, 0x80 + c % 64]
+
+theorem toNat_ofNat8 (n : Nat) (h : n < 256) : (UInt8.ofNat n).toNat = n := by
+  simp [UInt8.toNat_ofNat', Nat.mod_eq_of_lt h]
+
+theorem encodeCp_eq (c : Char) : (Utf8.encodeCp c.toNat).map UInt8.toNat = encN c.toNat := by
+  have hc := char_scalar c
+  unfold Utf8.encodeCp encN
+  split
+  · simp only [map_cons, map_nil]; rw [toNat_ofNat8 _ (by omega)]
+  · split
+    · simp only [map_cons, map_nil]; rw [toNat_ofNat8 _ (by omega), toNat_ofNat8 _ (by omega)]
+    · split
+      · omega
+      · split
+        · simp only [map_cons, map_nil]
+          rw [toNat_ofNat8 _ (by omega), toNat_ofNat8 _ (by omega), toNat_ofNat8 _ (by omega)]
+        · split
+          · simp only [map_cons, map_nil]
+            rw [toNat_ofNat8 _ (by omega), toNat_ofNat8 _ (by omega), toNat_ofNat8 _ (by omega), toNat_ofNat8 _ (by omega)]
+          · omega
+
+theorem utf8_eq (s : Str) : utf8 s = s.flatMap (fun c => encN c.toNat) := by
+  simp only [utf8, Utf8.encode, cps, flatMap_map, map_flatMap]
+  apply flatMap_congr'
+  intro c _
+  exact encodeCp_eq c
+
+theorem encN_ne_nil (c : Nat) : encN c ≠ [] := by
+  unfold encN; split <;> (try split) <;> (try split) <;> simp
+
+/-- a smaller scalar value has the smaller octet sequence, whatever follows -/
+theorem encN_mono (c d : Nat) (hd : d < 0x110000) (h : c < d) (A B : List Nat) :
+    lexLt (encN c ++ A) (encN d ++ B) = true := by
+  unfold encN
+  split <;> split <;> (try split) <;> (try split) <;> (try split) <;> (try split)
+  all_goals simp only [cons_append, nil_append, lexLt]
+  all_goals (repeat' split)
+  all_goals first | rfl | omega
+
+/-- an order-embedding, prefix-compatible encoding of the elements carries the lexicographic order over -/
+theorem lexLt_flatMap_mono (enc : Nat → List Nat) (P : Nat → Prop)
+    (hne : ∀ c, enc c ≠ [])
+    (hmono : ∀ c d A B, P c → P d → c < d → lexLt (enc c ++ A) (enc d ++ B) = true) :
+    ∀ a b : List Nat, (∀ c ∈ a, P c) → (∀ c ∈ b, P c) → lexLt a b = true →
+      lexLt (a.flatMap enc) (b.flatMap enc) = true
+  | _, [], _, _, h => by cases ‹List Nat› <;> simp [lexLt] at h
+  | [], d :: ds, _, _, _ => by
+    simp only [flatMap_nil, flatMap_cons]
+    cases he : enc d with
+    | nil => exact absurd he (hne d)
+    | cons x xs => rfl
+  | c :: cs, d :: ds, ha, hb, h => by
+    simp only [lexLt] at h
+    simp only [flatMap_cons]
+    by_cases hcd : c < d
+    · exact hmono c d _ _ (ha c mem_cons_self) (hb d mem_cons_self) hcd
+    · by_cases hdc : d < c
+      · simp [hcd, hdc] at h
+      · have e : c = d := by omega
+        subst e
+        simp only [hcd, if_false] at h
+        rw [lexLt_append_left]
+        exact lexLt_flatMap_mono enc P hne hmono cs ds (fun x hx => ha x (mem_cons_of_mem _ hx))
+          (fun x hx => hb x (mem_cons_of_mem _ hx)) h
+
+theorem lexLt_flatMap_eq (enc : Nat → List Nat) (P : Nat → Prop)
+    (hne : ∀ c, enc c ≠ [])
+    (hmono : ∀ c d A B, P c → P d → c < d → lexLt (enc c ++ A) (enc d ++ B) = true)
+    (a b : List Nat) (ha : ∀ c ∈ a, P c) (hb : ∀ c ∈ b, P c) :
+    lexLt (a.flatMap enc) (b.flatMap enc) = lexLt a b := by
+  cases hab : lexLt a b with
+  | true => exact lexLt_flatMap_mono enc P hne hmono a b ha hb hab
+  | false =>
+    cases hba : lexLt b a with
+    | true =>
+      exact lexLt_strictTotal.asymm _ _ (lexLt_flatMap_mono enc P hne hmono b a hb ha hba)
+    | false =>
+      rw [lexLt_strictTotal.total a b hab hba]
+      exact lexLt_irrefl _
+
+theorem cps_scalar (s : Str) : ∀ c ∈ cps s, c < 0x110000 := by
+  intro c hc
+  simp only [cps, mem_map] at hc
+  obtain ⟨ch, _, rfl⟩ := hc
+  have := char_scalar ch
+  omega
+
+theorem flatMap_cps (s : Str) (f : Nat → List Nat) : s.flatMap (fun c => f c.toNat) = (cps s).flatMap f := by
+  simp [cps, flatMap_map]
+
+/-- **i;octet on UTF-8 is code point order** (for all well-formed strings) -/
+theorem lt8_eq_cp (a b : Str) : lt8 a b = lexLt (cps a) (cps b) := by
+  simp only [lt8, utf8_eq, flatMap_cps]
+  exact lexLt_flatMap_eq encN (· < 0x110000) encN_ne_nil
+    (fun c d A B _ hd h => encN_mono c d hd h A B) _ _ (cps_scalar a) (cps_scalar b)
+
+/-- every character is in the Basic Multilingual Plane -/
+def Bmp (s : Str) : Prop := ∀ c ∈ s, c.toNat < 0x10000
+
+theorem utf16_of_bmp (s : Str) (h : Bmp s) : utf16 s = cps s := by
+  rw [utf16_eq]
+  induction s with
+  | nil => rfl
+  | cons c cs ih =>
+    have hc : c.toNat < 0x10000 := h c mem_cons_self
+    simp only [flatMap_cons, cps, map_cons]
+    rw [ih (fun x hx => h x (mem_cons_of_mem _ hx))]
+    simp [unit16, hc, cps]
+
+/-- **`QString::operator<` is code point order on BMP-only strings**, hence equal to the octet order there -/
+theorem lt16_eq_lt8_of_bmp (a b : Str) (ha : Bmp a) (hb : Bmp b) : lt16 a b = lt8 a b := by
+  rw [lt8_eq_cp, lt16, utf16_of_bmp a ha, utf16_of_bmp b hb]
+
 end Qx.C20
